@@ -67,6 +67,7 @@ class Chooser(object):
         self.pct_depth = pct_depth
         self.change_points = sorted(self.rng.randrange(1, est_len) for _ in range(pct_depth)) if mode == "pct" else []
         self.nchoices = 0
+        self.after_op = {}
 
     def choose(self, cur_tid, runnable, kind):
         """runnable: sorted list of tids (non-empty).  Returns chosen tid."""
@@ -92,6 +93,17 @@ class Chooser(object):
                 if cur_tid in runnable:
                     self.prio[cur_tid] = self.rng.random() * 0.5
             c = max(runnable, key=lambda t: self.prio[t])
+        elif self.mode == "bnd":
+            # pre-emptions concentrated around synchronisation / boundary operations: at such a yield, and at the first source
+            # line executed after it, switch with probability p_switch; elsewhere almost never
+            hot = kind != "line" or self.after_op.get(cur_tid, False)
+            self.after_op[cur_tid] = (kind != "line")
+            p = self.p_switch if hot else self.p_switch * 0.02
+            if cur_tid in runnable and self.rng.random() >= p:
+                c = cur_tid
+            else:
+                others = [t for t in runnable if t != cur_tid] or runnable
+                c = others[self.rng.randrange(len(others))]
         else:
             if cur_tid in runnable and self.rng.random() >= self.p_switch:
                 c = cur_tid
@@ -473,6 +485,8 @@ class CRLock(object):
         self.owner = None
         self.count = 0
         self._s = ACTIVE
+        if self.preempt and ACTIVE is not None and ACTIVE.cur is not None:
+            ACTIVE.ev("locknew", ACTIVE.name_of(self, "R"))
 
     def acquire(self, blocking=True, timeout=-1):
         s = self._s
